@@ -93,7 +93,11 @@ Structure(o) ==
               \cup B(CountsOK(o), "C06.AttrCounts")
               \cup B(IndicesOK(o), "C06.IndexValues")
               \cup B(ExtDeclared(o), "C06.ExtDeclared")
-    IN [bad |-> l4, det |-> {"Aligned:" \o MisalignCause(o, i) : i \in mis}, sound |-> hz = {}]
+    IN [bad |-> l4,
+        det |-> {"Aligned:" \o MisalignCause(o, i) : i \in mis}
+                \cup {IF p.attrs = <<>> THEN "IndexValues:primitive-without-attributes" ELSE "IndexValues:not-a-vertex" :
+                       p \in {q \in AllPrims(o) : ~IndexOK(o, q)}},
+        sound |-> hz = {}]
 
 Judge(ln) ==
     LET o == ln.out  src == ln.src IN
